@@ -15,11 +15,21 @@ FILLS = {'all-ffff': lambda a: 0xFFFF, 'all-0000': lambda a: 0, 'all-7fff': lamb
          'ramp': lambda a: (a * 257 + 3) & 0xFFFF, 'all-6363': lambda a: 0x6363}
 
 
-def run_case(cfg, fname, group=None):
+def run_case(cfg, fname, group=None, prepoll=False):
     r = make_rig(cfg, fill=FILLS[fname])
     inv, dev = r.inv, r.dev
     if r.call(inv.read_device_info)[0] != 'ok':
         return [], 0
+    if prepoll:
+        # the runtime data were polled before the settings are read (capability flags of the object reflect what the
+        # poll saw: no battery, refused blocks ...)
+        if cfg['family'] == 'ET' and prepoll == 'no-battery':
+            dev.rf.set(35184, 0)
+        if cfg['family'] == 'ET' and prepoll == 'blocks-refused':
+            from ..devsim import ET_OPTIONAL
+            dev.refused = list(dev.refused) + ET_OPTIONAL['battery'] + ET_OPTIONAL['mppt'] + ET_OPTIONAL['meter_ext2']
+        r.call(inv.read_runtime_data)
+        r.call(inv.read_runtime_data)
     if cfg['family'] == 'ES':
         for i in range(len(dev.settings)):
             dev.settings[i] = FILLS[fname](i) & 0xFF
@@ -50,12 +60,15 @@ def run_case(cfg, fname, group=None):
 
 
 def job(j):
-    cfg, fname, group = j
-    vio, n = run_case(cfg, fname, group)
+    cfg, fname, group = j[:3]
+    prepoll = len(j) > 3 and j[3]
+    vio, n = run_case(cfg, fname, group, prepoll)
     out = {}
     for key, cause in vio:
+        if prepoll:
+            key += '/after-polls' + (':' + prepoll if isinstance(prepoll, str) else '')
         out.setdefault(key, []).append(dict(key=key, clause=key.split('/')[0],
-                                            replay=dict(kind='settings', cfg=cfg, fill=fname,
+                                            replay=dict(kind='settings', cfg=cfg, fill=fname, prepoll=prepoll,
                                                         group=[group[0], group[1].hex()] if group else None),
                                             detail=dict(cause=cause)))
     res = []
@@ -66,7 +79,8 @@ def job(j):
 
 
 def run_part(tier, seed, rep):
-    jobs = [(c, f, None) for c in CFGS for f in FILLS]
+    jobs = [(c, f, None) for c in CFGS for f in FILLS] + [(c, f, None, pp) for c in CFGS for f in FILLS
+                                                             for pp in ((True, 'no-battery', 'blocks-refused') if c['family'] == 'ET' else (True,))]
     # uninterpretable contents of each group setting, one at a time, in an otherwise harmless register file
     for c in CFGS:
         r = make_rig(c)
@@ -90,5 +104,5 @@ def replay(r):
     if isinstance(cfg.get('firmware'), dict):
         cfg['firmware'] = bytes.fromhex(cfg['firmware']['hex'])
     g = (r['group'][0], bytes.fromhex(r['group'][1])) if r.get('group') else None
-    vio, n = run_case(cfg, r['fill'], g)
+    vio, n = run_case(cfg, r['fill'], g, r.get('prepoll') or False)
     return dict(evaluations=n, violations=vio)
